@@ -41,7 +41,7 @@ CLAIMED = {
         "oracle computes the expected model from the event list; every text is read in up to 7 formatting variants (LF/CRLF "
         "x final newline, wide blanks and trailing blanks, tabs, extra blank lines and detached comments) which must all give "
         "that model, and the model rendered to canonical DSDL must read back equal. Constant value (every int64), array "
-        "capacity and extent are symbolic through identifier injection (c03.values); event sequences are choice-exhaustive "
+        "capacity and extent are symbolic through identifier injection (c03.values); a constant of 6 types x 5 value forms over small p/q (non-dyadic, beyond 2**53, > 17 digits) rendered with str() must read back with exactly the same value (c03.const-roundtrip); event sequences are choice-exhaustive "
         "up to 3 (quick) / 4 (thorough) events per section.",
         note="Event sequences and formatting variants are enumerated scaffolding / choice variables (the grammar needs concrete "
         "text); the solver-relevant variables are the values. Nested composite fields are covered under C09, non-ASCII "
@@ -148,8 +148,8 @@ CLAIMED = {
         "directories), sorted; identical models for 6 spellings of the root x 10 spellings of the lookup argument (absolute, "
         "relative to cwd, str, via symlink, with .., duplicated, mixed spellings of one directory); read_files for every "
         "subset of 1..3 of 7 targets x orders x spellings: direct = requested, transitive = rest of the closure, disjoint, "
-        "sorted, types equal to read_namespace's; 17 layouts of root/lookup directories x collision flag: rejected exactly "
-        "for nesting (depth 1..3, either argument order) or same name ignoring case when collisions are disallowed.",
+        "sorted, types equal to read_namespace's; 21 layouts of root/lookup directories x collision flag: rejected exactly "
+        "for nesting (depth 1..3, either argument order, also inside a same-named directory) or same name ignoring case when collisions are disallowed.",
         note="The real hash seed and directory enumeration order are MODELLED by the stub, not varied. Everything except the "
         "ordering conditions is concrete file-system input (choice variables, real code run natively): solver leverage "
         "is confined to c10.sort.",
@@ -213,7 +213,7 @@ CLAIMED = {
     ),
     "C16": dict(
         text="Symbolic execution of the real constructors and BitLengthSet queries (min, max, extent, fixed_length, byte "
-        "alignment of the type, of every field and of every field offset, BitLengthSet ==) on 9 shapes whose array capacity / "
+        "alignment of the type, of every field and of every field offset, BitLengthSet ==) on 11 shapes (incl. a fixed array of a variable-length composite whose residues mod 32 cycle) whose array capacity / "
         "extent is SYMBOLIC: n = 32*q + r with q ranging over everything up to 2**63 (r scaffolding), also through the reader "
         "with the capacity injected as an identifier. Work that grows with the capacity is turned into assertions over the "
         "symbolic value by harness-side spies: Operator.expand raises; the name `range` in the bit-length-set and type "
